@@ -264,6 +264,7 @@ fn seek_program(db: &DB, keys: &[Vec<u8>], ex: &Explainer, what: &str, sig: &str
             Ok(it) => it,
             Err(_) => return None,
         };
+        let mut ti = 0usize;
         for t in &targets {
             // the same iterator is used again after it reported an error: a new positioning call
             // starts afresh and must be right or report again
@@ -272,6 +273,32 @@ fn seek_program(db: &DB, keys: &[Vec<u8>], ex: &Explainer, what: &str, sig: &str
             }
             if let Some(d) = check_pos(keys, ex, t, &it, "seek to") {
                 return Some(d);
+            }
+            ti += 1;
+            if ti % 2 == 1 && it.status().is_none() {
+                // direction reversal right after the seek: the entry before the target
+                let hi: Vec<u8> = if it.is_valid() { it.current().map(|(k, _)| k.clone()).unwrap() } else { vec![0xff; 64] };
+                let was_valid = it.is_valid();
+                if was_valid {
+                    it.prev();
+                } else if it.seek_to_last().is_err() {
+                    continue;
+                }
+                if it.status().is_none() {
+                    let pos = if it.is_valid() { it.current().map(|(k, v)| (k.clone(), v.clone())) } else { None };
+                    let lo = pos.as_ref().map(|p| p.0.clone());
+                    let mut between: Vec<&Vec<u8>> = keys.iter().filter(|u| lo.as_ref().map(|l| *u > l).unwrap_or(true) && (if was_valid { **u < hi } else { true })).collect();
+                    between.sort();
+                    if let Some(u) = between.into_iter().rev().find(|u| !ex.allowed(u).contains(&None)) {
+                        return Some(format!("prev() right after seek to {} returned with no error status, positioned at {} - but key {} lies in between and was written", show_key(t), lo.as_ref().map(|k| show_key(k)).unwrap_or("<invalid>".into()), show_key(u)));
+                    }
+                    if let Some((k, v)) = pos {
+                        if !ex.allowed(&k).contains(&Some(v.clone())) {
+                            return Some(format!("prev() right after seek to {} shows {} = {} which is not what was written", show_key(t), show_key(&k), show_val(&v)));
+                        }
+                    }
+                }
+                continue;
             }
             if it.is_valid() && it.status().is_none() {
                 // one step forward: the next visible key after the current one
